@@ -155,7 +155,9 @@ class Vec(metaclass=Meta):
 
     def __exit__(self, t, v, tb):
         self.entered += 10
-        return False
+        # remembers what it was told and swallows look-up errors, as context managers that translate or suppress errors do
+        self.exit_saw = getattr(t, "__name__", None)
+        return t is not None and issubclass(t, LookupError)
 
     def __int__(self):
         return len(self.xs)
@@ -327,6 +329,13 @@ def steps_vec(rng, mode):
     def with_block(o, e):
         with o as x:
             return ("in", x)
+
+    def with_raising(cls):
+        def step(o, e):
+            with o:
+                raise cls("from the body")
+            return "swallowed"
+        return step
     safe = [
         ("add", lambda o, e: o + n), ("radd", lambda o, e: n + o), ("mul", lambda o, e: o * 2), ("rmul", lambda o, e: 3 * o), ("sub", lambda o, e: o - n),
         ("rsub", lambda o, e: n - o), ("neg", lambda o, e: -o), ("abs", lambda o, e: abs(o)), ("iadd", lambda o, e: operator.iadd(o, n)),
@@ -337,6 +346,7 @@ def steps_vec(rng, mode):
         ("iter", lambda o, e: list(o)), ("repr", lambda o, e: repr(o)), ("str", lambda o, e: str(o)), ("format", lambda o, e: "%s|%r" % (o, o)), ("with", with_block),
         ("exposed_sum", lambda o, e: o.exposed_sum()), ("exposed_sum_kw", lambda o, e: o.exposed_sum(extra=5)), ("exposed_tag", lambda o, e: o.exposed_tag),
         ("int", lambda o, e: int(o)), ("divmod", lambda o, e: divmod(o, 2)),
+        ("with_body_raises_swallowed", with_raising(KeyError)), ("with_body_raises_passed_on", with_raising(ValueError)),
     ]
     public = [
         ("call", lambda o, e: o(1, "a", k=n)), ("call_noargs", lambda o, e: o()), ("prop_get", lambda o, e: o.total), ("prop_set", lambda o, e: setattr(o, "total", n)),
@@ -525,7 +535,7 @@ def snapshot(kind, obj):
     if kind == "rewinder":
         return ("rewinder", obj.pos, obj.rewinds, len(obj.items))
     if kind == "vec":
-        return (view(obj), obj.entered, sorted(k for k in obj.__dict__), getattr(obj, "eq_calls", 0))
+        return (view(obj), obj.entered, sorted(k for k in obj.__dict__), getattr(obj, "eq_calls", 0), getattr(obj, "exit_saw", "-"))
     if kind == "file":
         pos = obj.tell() if not obj.closed else None
         return ("file", pos, obj.closed)
@@ -577,6 +587,16 @@ def run_sequence(ctx, rng, pair, mode, kind, idx):
         if not ok and kind == "bytearray" and name == "radd" and got == ("exc", TypeError):
             # bytes.__add__ reads its right operand through the C buffer protocol, which no Python-level proxy can provide
             bad.append(("needs-buffer-protocol/bytes+proxy", "b'..' + proxy(bytearray) raises TypeError; with the target it concatenates"))
+            break
+        if name.startswith("with_body_raises") and (not ok or getattr(target, "exit_saw", "-") != getattr(twin, "exit_saw", "-")):
+            # the listed finding: a proxy's __exit__ forwards the exception TYPE in the place of the exception, the owner cannot
+            # raise a proxy, and the target's __exit__ is told about a TypeError instead
+            bad.append(("with-block-body-raises/target-told-TypeError", "with proxy: raise %s - proxy gave %r, twin gave %r; the target's __exit__ saw %r, the twin's %r" % (
+                "KeyError" if "swallowed" in name else "ValueError", got, want, getattr(target, "exit_saw", "-"), getattr(twin, "exit_saw", "-"))))
+            # recorded once per sequence; the field the finding is about is re-aligned so that the rest of the sequence is still compared
+            target.exit_saw = twin.exit_saw
+            if snapshot(kind, target) == snapshot(kind, twin):
+                continue
             break
         if not ok:
             bad.append(("result-differs/%s/%s/%s" % (mode, kind, name), "step %d %s: proxy gave %r, twin gave %r" % (s, name, got, want)))
